@@ -17,6 +17,7 @@ CGLOB = {'AW_INSTANCE': '_ZN5cocls7awaiter8instanceE', 'AW_DISABLED': '_ZN5cocls
 DESTROY = r'^std::__n4861::coroutine_handle<cocls::async_promise<int> >::destroy\(\) const$'
 RESOLVE = r'^cocls::future<int>::resolve\(\)$'
 SN = r'^cocls::suspend_point<void>::suspend_now\(\)$'
+FU_VALUE = r'^cocls::future<int>::value\(\)$'
 FU_SET_EXC = r'^(void )?cocls::future<int>::set\(std::__exception_ptr::exception_ptr\)$'
 def cunit(name, rx, extra_opt=None, boundary=()):
     opt = {'ch_destroy': DESTROY, 'fu_resolve': RESOLVE, 'sp_suspend_now': SN}; 
@@ -35,6 +36,8 @@ CUNITS = [
          boundary=[DESTROY, RESOLVE, SN, r'^std::__n4861::coroutine_handle<void>::resume\(\) const$'], harness='h_caw_suspend_any', under_contract=['cocls::async<int>::co_awaiter::await_suspend(std::coroutine_handle<>) through a fixed-signature wrapper']),
     dict(cunit('ap_unhandled', r'^drv_prom_unhandled_cur$'), names_opt={'ch_destroy': DESTROY, 'fu_resolve': RESOLVE, 'sp_suspend_now': SN, 'fu_set_exc_stub': FU_SET_EXC},
          boundary=[DESTROY, RESOLVE, SN, FU_SET_EXC], harness='h_ap_unhandled', under_contract=['cocls::async_promise<int>::unhandled_exception()']),
+    dict(cunit('caw_await_resume', r'^cocls::async<int>::co_awaiter::await_resume\(\)$'), names_opt={'ch_destroy': DESTROY, 'fu_resolve': RESOLVE, 'sp_suspend_now': SN, 'fu_value_stub': FU_VALUE},
+         boundary=[DESTROY, RESOLVE, SN, FU_VALUE], harness='h_caw_await_resume'),
     cunit('caw_await_ready', r'^cocls::async<int>::co_awaiter::await_ready\(\) const$'),
     cunit('ap_resolve', r'^void cocls::async_promise<int>::resolve<int&>\(int&\)$'),
     cunit('fa_await_suspend', r'^std::__n4861::coroutine_handle<void> cocls::async_promise<int>::final_awaiter::await_suspend<cocls::async_promise<int> >\('),
